@@ -378,6 +378,16 @@ def gen_c09(rnd, n, thorough=False):
             gl.append("clidiff src=g:y/*.wsp dest=h: from=0 until=0 archive=-1 live=%s/y/b.wsp hold=h/y/a.wsp" % side)
             gl.append("clidiff src=g:y/*.wsp dest=h: from=0 until=0 archive=-1")
             cases.append({'id': 'c09-%d-live' % c, 'lines': gl, 'tags': {'layout': 'live', 'pair': 'glob_live', 'window': 'default'}})
+    # a file compared with itself: clean when it can be read -- and the same error as for any pair when it is missing,
+    # is no whisper file, or lacks the selected archive
+    l2 = CLI_LAYOUTS['two_1s']
+    sl = fill_ops(rnd, 's/a.wsp', l2, 2, 0x3f000000, density=0.6, inconsistent=False) + ["create s/zero.wsp %s m 2 x 3f000000" % fmt_layout(l2), "drop s/zero.wsp"]
+    for nm, arch in [('a.wsp', -1), ('none.wsp', -1), ('a.wsp', 7), ('zero.wsp', -1), ('none.wsp', 0)]:
+        sl.append("clidiff src=s:%s dest=s:%s from=0 until=0 archive=%d" % (nm, nm, arch))
+        sl.append("clidiff src=s:%s dest=s:%s from=0 until=0 archive=%d remote=1" % (nm, nm, arch))
+        sl.append("clidiff src=s:%s dest=s: from=0 until=0 archive=%d" % (nm, arch))
+    sl.append("clidiff src=s:n*.wsp dest=s: from=0 until=0 archive=-1")
+    cases.append({'id': 'c09-self', 'lines': sl, 'tags': {'layout': 'two_1s', 'pair': 'self', 'window': 'default'}})
     # a glob whose name list is longer than 64 KiB (a thousand files with long names), the only pair that does not
     # compare sorting last: through a directory and through a server every matched pair is compared
     cnt = rnd.randint(1005, 1030)
@@ -481,6 +491,15 @@ def gen_c10(rnd, n, thorough=False):
             sl = item_tree(rnd, l2, 2, 0x3f000000, ['i1', 'i2', 'i3'], 2, 1.0)
             sl.append("clisum base=s item=i* src=*.wsp from=0 until=0 archive=-1 header=1 hold=s/i1/f1.wsp:1300")
             cases.append({'id': 'c10-%d-slowitem' % c, 'lines': sl, 'tags': {'layout': 'live', 'kind': 'slow_first_item', 'files': 6, 'window': 'default', 'remote': 0}})
+        if c == 6:
+            # an item directory that exists but holds no file matching the pattern (alone, and as the second of two
+            # items): "does not exist", through a directory and through a server alike
+            l2 = CLI_LAYOUTS['two_1s']
+            sl = item_tree(rnd, l2, 2, 0x3f000000, ['i1'], 2, 1.0) + fill_ops(rnd, 's/i2/g0.wsp', l2, 2, 0x3f000000, density=0.5, inconsistent=False)
+            for itp in ('i2', 'i*', 'i[12]'):
+                for rem in (0, 1):
+                    sl.append("clisum base=s item=%s src=f*.wsp from=0 until=0 archive=-1 header=1 remote=%d" % (itp, rem))
+            cases.append({'id': 'c10-%d-nomatch' % c, 'lines': sl, 'tags': {'layout': 'two_1s', 'kind': 'item_without_matching_files', 'files': 3, 'window': 'default', 'remote': 1}})
         if c == 2:
             cases.append(many_files_case(rnd, 'c10-%d-hundreds' % c, ['sum'], nfiles=rnd.pick([257, 260, 300, 515] if thorough else [257, 260, 300])))
     return cases
@@ -582,6 +601,20 @@ def gen_c11(rnd, n, thorough=False):
             lines.append("clisumdiff " + common)
         lines.append("clisum base=s item=%s src=%s from=%s until=%s archive=%d header=1" % (itempat, srcpat, frm, until, arch))
         cases.append({'id': 'c11-%d' % c, 'lines': lines, 'tags': {'layout': lname, 'dest': destkind, 'files': nfiles, 'window': wk}})
+        if c == 1:
+            # three sources whose sum depends on the order of the additions (1e16, -1e16, 1), each in turn the slowest
+            # to be read: the sum is the fold in the order of the file names, so sum-copy and sum-diff agree every time
+            l2 = CLI_LAYOUTS[rnd.pick(['two_1s', 'three_1s'])]
+            ll = []
+            for j, v in enumerate([1e16, -1e16, 1.0]):
+                ll += ["create s/i1/f%d.wsp %s m 2 x 3f000000" % (j, fmt_layout(l2)),
+                       "many s/i1/f%d.wsp 0 @ 2 @-%d %016x @-%d %016x" % (j, l2[0][0], fbits(v), 3 * l2[0][0], fbits(0.1 * (j + 1))), "sync s/i1/f%d.wsp" % j, "drop s/i1/f%d.wsp" % j]
+            cm = "base=s item=i1 src=*.wsp destbase=d dest=sum.wsp from=0 until=0 archive=-1"
+            ll.append("clisumcopy " + cm + " m=2 x=3f000000 layout=%s slow=s/i1/f0.wsp:300" % lay_csv(l2))
+            observe_all(ll, 'd/i1/sum.wsp', l2)
+            for j in (1, 2, 0):
+                ll.append("clisumdiff " + cm + " slow=s/i1/f%d.wsp:300" % j)
+            cases.append({'id': 'c11-%d-order' % c, 'lines': ll, 'tags': {'layout': 'order', 'dest': 'absent', 'files': 3, 'window': 'default'}})
         if c == 2:
             # several items while the sources are being written: the first item's destination is kept
             # locked for two clock seconds, meanwhile a source of the second item receives a point; the
@@ -617,6 +650,16 @@ def gen_c18(rnd, n, thorough=False):
                       "cliabort file=s/a.wsp path=view", "cliviewraw src=s:small.wsp from=0 until=0 archive=-1 header=1 sort=1 remote=1"]
             cases.append({'id': 'c18-%d' % c, 'lines': lines, 'tags': {'layout': 'big%d' % N}})
             continue
+        if c == 5:
+            # windows that end exactly where the retention of an archive begins (and a second or two later: the command
+            # reads its own clock), on densely written archives
+            lname = rnd.pick(['two_1s', 'three_2s', 'two_2s'])
+            layout = CLI_LAYOUTS[lname]
+            el = fill_ops(rnd, 's/a.wsp', layout, 2, 0x3f000000, density=1.0, inconsistent=True)
+            for a_, (S_, N_) in enumerate(layout):
+                for d_ in (0, 1, 2, 3):
+                    el.append("cliview src=s:a.wsp from=@-%d until=@-%d archive=%d header=0 remote=%d" % (S_ * N_ + 3 * S_, S_ * N_ - d_, rnd.pick([a_, -1]), rnd.pick([0, 0, 1])))
+            cases.append({'id': 'c18-%d-edge' % c, 'lines': el, 'tags': {'layout': lname, 'window': 'retention_edge'}})
         lname = rnd.pick(list(CLI_LAYOUTS))
         layout = CLI_LAYOUTS[lname]
         if rnd.chance(0.15):
@@ -1331,7 +1374,7 @@ def procify(gen, share=0.12):
     together with a start is refused by every Parse)."""
     heads = ('clicopy ', 'clidiff ', 'clisum ', 'clisumcopy ', 'clisumdiff ', 'cliview ', 'cliviewraw ', 'cligenerate ')
     def ok(line):
-        if not line.startswith(heads) or any(t in line for t in (' live=', ' hold=', ' intruder=', ' again=', ' proc=', ' deep=', 'remotedest=1', ' twice=')):
+        if not line.startswith(heads) or any(t in line for t in (' live=', ' hold=', ' slow=', ' intruder=', ' again=', ' proc=', ' deep=', 'remotedest=1', ' twice=')):
             return False
         kv = dict(t.split('=', 1) for t in line.split()[1:] if '=' in t)
         frm, until = kv.get('from', '0'), kv.get('until', '0')
